@@ -157,14 +157,15 @@ OWNER = {
     ("core.chords", "triad"): lambda: [["C", "E", "G"], ["A", "C", "E"]],
     ("core.chords", "seventh"): lambda: [["C", "E", "G", "B"], ["E", "G", "B", "C"]],
     ("core.chords", "shorthand"): lambda: [False, True],
-    ("core.chords", "no_inversions"): lambda: [False],
+    ("core.chords", "no_inversions"): lambda: [False, True],
     ("core.chords", "no_inversion"): lambda: [False],
-    ("core.chords", "no_polychords"): lambda: [False],
+    ("core.chords", "no_polychords"): lambda: [False, True],
     ("core.chords", "placeholder"): lambda: [None],
     ("core.chords", "tries"): lambda: [2],
     ("core.chords", "shorthand_string"): lambda: ["Cm7", ["Cm7", "G7"], ["Am/G", "Dm|G", "NC"]],
     ("core.progressions", "progression"): lambda: [["I", "IV", "V7"], ["Im7", "V"], ["VIIdim7"], ["IM7", "bIIdim"], "I"],
-    ("core.progressions", "chord"): lambda: [["C", "E", "G"], [["C", "E", "G"], ["G", "B", "D", "F"]]],
+    ("core.progressions", "chord"): lambda: [["C", "E", "G"], [["C", "E", "G"], ["G", "B", "D", "F"]], ["C", "E", "G", "B"],
+                                             ["C", "E", "G", "B", "D"]],
     ("core.progressions", "prog_tuple"): lambda: [("I", 0, "7")],
     ("core.progressions", "substitute_index"): lambda: [0],
     ("core.progressions", "ignore_suffix"): lambda: [False, True],
